@@ -115,6 +115,35 @@ def static_check(ctx, mode, total, extra="", select=None, oracle_relevant=None, 
             mo = m.outs[0] if m.outs else ""
             if canon_outcome(o0) != canon_outcome(mo):
                 corr = corr or (c, "outcome: impl `%s` model `%s`" % (o0[:120], mo[:120]))
+    if corr and not ctx.violations and not getattr(ctx, "_searching", False):
+        # the correspondence broke and the oracle is silent: search harder for a concrete failing
+        # input (more cases, other seeds) before reporting no-failing-input-found
+        ctx._searching = True
+        for rnd in range(3):
+            if ctx.violations:
+                break
+            ctx.log("correspondence broken at %s; search round %d for a failing input" % (corr[0].kind, rnd + 1))
+            sh2 = run_mode(ctx, h, d, mode, max(total, 2000) * (4 + 4 * rnd), extra=extra, tag="search%d" % rnd, seed_offset=100 + rnd,
+                           drv_modes=[("spec", ("--max-n %d " % mn) + spec_opts)])
+            for sh_ in sh2:
+                if isinstance(sh_[0], str):
+                    continue
+                impl2, (spec2,), _ = sh_
+                ss2 = {c.id: c for c in spec2}
+                for c in impl2:
+                    if select and not select(c):
+                        continue
+                    sp = ss2.get(c.id)
+                    v = verdict_of(sp) if sp else "missing"
+                    o0 = c.outs[0] if c.outs else ""
+                    if has_dup(o0):
+                        v = "bad duplicate-member"
+                    if judge is not None:
+                        v = judge(c, sp, v)
+                    if (v.startswith("bad") or v == "panic") and (oracle_relevant is None or oracle_relevant(v, c)) and not match_known(known, c, v):
+                        ctx.violation("%s: %s (%s) [found by the search started after the correspondence broke: %s]" % (c.kind, v, spec_info(sp) if sp else "", corr[1]),
+                                      c.text() + ("".join("SPEC " + x + "\n" for x in sp.outs) if sp else ""), found_input=True, key=c.kind + v)
+        stats["search_rounds"] = rnd + 1
     if corr and not ctx.violations:
         c, why = corr
         ctx.violation("correspondence Model.Solvers vs the Rust solvers no longer checks at %s (%s); the brute-force oracle found no failing input among %d judged cases"
